@@ -9,6 +9,17 @@ use tiny_http::{HTTPVersion, Header, Response, StatusCode};
 
 pub struct C19;
 
+/// This check is cheap: the quick tier already runs the full alphabet (what used to be the
+/// thorough tier); `deep` marks the extras that only the thorough tier adds.
+#[allow(dead_code)]
+fn full(_t: Tier) -> bool {
+    true
+}
+#[allow(dead_code)]
+fn deep(t: Tier) -> bool {
+    t == Tier::Thorough
+}
+
 /// (name, value) atoms; names appear in three letter cases
 fn atoms() -> Vec<(String, String)> {
     let base: [(&str, &str); 12] = [
@@ -64,10 +75,8 @@ struct Config {
 }
 
 fn max_len(tier: Tier) -> usize {
-    match tier {
-        Tier::Quick => 3,
-        Tier::Thorough => 4,
-    }
+    let _ = tier;
+    4
 }
 
 fn n_lists(tier: Tier) -> u64 {
